@@ -59,9 +59,12 @@ class World:
             self.decoy.allocate()
         devs = []
         pos = 1
-        for kind in layout:      # 'r' read-only, 'w' direct rw, 'f' fmmu rw
+        # 'r' direct read-only, 'w' direct rw, 'f' fmmu rw, 'g' fmmu
+        # read-only (inputs mapped, outputs not: the LRD and the LWR then
+        # expect different working counters)
+        for kind in layout:
             t, v = ecat.make_terminal(
-                self.ec, pos, [("H",)], [("H",)], use_fmmu=(kind == "f"))
+                self.ec, pos, [("H",)], [("H",)], use_fmmu=(kind in "fg"))
             devs.append(CountDev(v[SyncManager.IN, 0],
                                  v[SyncManager.OUT, 0]
                                  if kind in "wf" else None))
